@@ -6,12 +6,14 @@ do_css_Value exactly (Python int / correctly rounded double, `'%f'`, `_strip_zer
 leading-zero surgery).  The theorems below are about the serializer of /repo today
 (`fixedRounding = true`); the defect of the pinned snapshot is kept as a kernel-checked witness.
 
-Partial: `fmt_reparse_float` covers float literals not printed as integers (both omitLeadingZero
-settings) for the number text; the zero / integer branches, the `+` prefix and the unit suffix
-are covered by the `num` correspondence on the grid and the exact-fraction oracle.
-hsl()/hsla() (floating point in colorsys) is decided by the oracle only.
+`fmt_reparse_partial` (float literals not printed as integers) was the first theorem; `fmt_reparse_all`,
+`fmt_sign_unit`, `fmt_reparse_text` and `number_roundtrip` now cover every branch (zero, integer, both
+float branches), the `+` prefix, the unit suffix and the re-parse of the whole written text, for every
+number `parseNum` can return (`parse_wf`).
+Partial: hsl()/hsla() and rgb() percentages (floating point in colorsys) are decided by the oracle only.
 -/
 import CssVerif.Proofs.Number
+import CssVerif.Proofs.NumberFull
 import CssVerif.Gen.Colors
 import CssVerif.Spec.Colors
 namespace CssVerif.C17
@@ -55,6 +57,148 @@ the repaired serializer writes `1` -/
 theorem snapshot_counterexample :
     (parseNum [46, 57, 57, 57, 57, 57, 57, 53]).map (fmtNumber false true) = some [46, 48] ∧
     (parseNum [46, 57, 57, 57, 57, 57, 57, 53]).map (fmtNumber true true) = some [49] := by decide +kernel
+
+/-! ### numbers: every branch of the serializer (repaired code), sign and unit, re-parse
+
+Definitions used below (all in `Proofs/NumberFull.lean`):
+`WF p` — the facts true of every `p` returned by `parseNum` (`parse_wf`);
+`printsZero p` / `printsInt p` — the serializer's `num == 0` / `num == int(num)` tests, `intPart p` = `int(num)`;
+`signOut p`, `unitOut p` — the sign and unit texts; `signBack p` — the sign `parseNum` reads back;
+`expected p` — the value to be written: `round6 value / 10^6` for a float literal, the value itself
+for an integer literal, with the sign of `p` but no sign on a zero;
+`UnitText d` — `d` does not start with a digit nor with `.` digit. -/
+
+/-- everything `parseNum` returns is well formed: sign is none/`+`/`-` and agrees with `value.neg`,
+denominators are positive, integer literals have denominator 1, the unit does not start with a
+digit and, after an integer literal, not with `.` digit -/
+theorem parse_wf (t : Text) (p : Parsed) (h : parseNum t = some p) : WF p := parseNum_wf t p h
+
+/-- **1. every branch, both `omitLeadingZero` settings**: the number text is a decimal text whose
+exact value is the expected one — for a float literal `round6 value / 10^6`, for an integer literal
+the value itself — with the sign of `p` and never `-0`; in the zero branch it is exactly `0`, in the
+integer branch it is the integer `int(num)` (denominator 1). -/
+theorem fmt_reparse_all (om : Bool) (p : Parsed) (hwf : WF p) :
+    ∃ v, decimalValue (fmtParts true om p).2.1 = some v ∧ 0 < v.den ∧
+      (p.isFloat = true → Q.same v ⟨p.value.neg && round6 p.value != 0, round6 p.value, 1000000⟩) ∧
+      (p.isFloat = false → Q.same v ⟨p.value.neg && p.value.num != 0, p.value.num, p.value.den⟩) ∧
+      (v.num = 0 → v.neg = false) ∧
+      (printsZero p = true ↔ v.num = 0) ∧
+      (printsZero p = true → v = ⟨false, 0, 1⟩) ∧
+      (printsInt p = true → v.den = 1 ∧ v.num = intPart p) := by
+  obtain ⟨v, hv, hs, hd, hnz, hi, hpz, hz⟩ := reparse_all om p hwf
+  rw [fmtParts_eq]
+  refine ⟨v, hv, hd, ?_, ?_, hnz, hpz, hz, fun h => ⟨hi h, int_branch_num p v hwf.den hs (hi h)⟩⟩
+  · intro hf; simpa [expected, hf] using hs
+  · intro hf; simpa [expected, hf] using hs
+
+/-- … hence in every branch the value written is within half a unit of the sixth decimal place of
+the parsed value (exactly it for integer literals), and has its sign unless it is zero -/
+theorem fmt_reparse_close (om : Bool) (p : Parsed) (hwf : WF p) :
+    ∃ v, decimalValue (fmtParts true om p).2.1 = some v ∧ 0 < v.den ∧
+      (v.neg = true → p.value.neg = true) ∧ (v.num ≠ 0 → v.neg = p.value.neg) ∧
+      2 * 1000000 * (v.num * p.value.den - p.value.num * v.den) ≤ p.value.den * v.den ∧
+      2 * 1000000 * (p.value.num * v.den - v.num * p.value.den) ≤ p.value.den * v.den := by
+  rw [fmtParts_eq]; exact reparse_close om p hwf
+
+/-- **2. sign and unit**: the text written is sign ++ number ++ unit, where the sign is `+` exactly
+when `p` was written with `+` and the value printed is not zero (`printsZero p = false`, which by
+`fmt_reparse_all` is `v.num ≠ 0`), and the unit is `p.dim` except that a zero value drops one of the
+eight `zeroUnits` (and only then).  No hypothesis on `p`. -/
+theorem fmt_sign_unit (om : Bool) (p : Parsed) :
+    fmtNumber true om p = signOut p ++ (fmtParts true om p).2.1 ++ unitOut p ∧
+    (fmtParts true om p).1 = signOut p ∧ (fmtParts true om p).2.2 = unitOut p ∧
+    signOut p = (if p.sign = some 43 ∧ printsZero p = false then [43] else []) ∧
+    unitOut p = (if printsZero p = true ∧ p.dim ∈ zeroUnits then [] else p.dim) := by
+  refine ⟨?_, ?_, ?_, ?_, ?_⟩
+  · rw [fmtNumber_eq, fmtParts_eq]
+  · rw [fmtParts_eq]
+  · rw [fmtParts_eq]
+  · unfold signOut; cases printsZero p <;> simp
+  · unfold unitOut; cases printsZero p <;> simp
+
+/-- **3. the written text parses again** (`parseNum`, i.e. DimensionValue's split): it yields the unit
+of (2), the sign written, an `int` in the zero/integer branches and a `float` otherwise, whose value
+is the decimal value `v` of (1) — for a float the correctly rounded double of `v`
+(`roundToDouble`, the model of Python's `float(text)`).
+
+Hypothesis `hdim`: when the number is written without a fraction, the unit must be a text that
+`parseNum` can produce after an integer (`UnitText`: not starting with a digit — part of `WF` — nor with
+`.` digit).  It holds for every integer literal (`unit_text_of_int`); it can fail only for a float
+literal followed by `.` digit, e.g. `1.0.5` (unit `.5`) is written `1.5`, see the counterexample below. -/
+theorem fmt_reparse_text (om : Bool) (p : Parsed) (hwf : WF p) (hdim : printsInt p = true → UnitText p.dim) :
+    ∃ v p', decimalValue (fmtParts true om p).2.1 = some v ∧ Q.same v (expected p) ∧
+      parseNum (fmtNumber true om p) = some p' ∧
+      p'.dim = unitOut p ∧ p'.sign = signBack p ∧ p'.isFloat = !printsInt p ∧
+      p'.value = (if printsInt p then v
+                  else ⟨v.neg, (roundToDouble v.num v.den).1, (roundToDouble v.num v.den).2⟩) := by
+  obtain ⟨v, hv, hs, hp⟩ := reparse_text om p hwf hdim
+  rw [fmtNumber_eq, fmtParts_eq]
+  exact ⟨v, _, hv, hs, hp, rfl, rfl, rfl, rfl⟩
+
+/-- `UnitText` is exactly the set of units `parseNum` yields after an integer literal … -/
+theorem unit_text_of_int (t : Text) (p : Parsed) (h : parseNum t = some p) (hf : p.isFloat = false) :
+    UnitText p.dim := unitText_of_parse t p h hf
+
+/-- … every such text is produced (after the literal `1`) -/
+theorem unit_text_produced (d : Text) (h : UnitText d) : ∃ p, parseNum (49 :: d) = some p ∧ p.dim = d :=
+  unitText_produced d h
+
+/-- `hdim` is needed: `parseNum` accepts `1.0.5` (a float `1.0` with unit `.5`, which no tokenizer
+produces); it is written `1.5`, which reads back with an empty unit -/
+theorem reparse_needs_unit_text :
+    (parseNum [49, 46, 48, 46, 53]).map (fun p => (p.dim, printsInt p, fmtNumber true false p, unitOut p,
+        (parseNum (fmtNumber true false p)).map (·.dim)))
+      = some ([46, 53], true, [49, 46, 53], [46, 53], some []) := by decide +kernel
+
+/-- and outside `WF` (a unit starting with a digit cannot come from `parseNum`): `1` with unit `5`
+is written `15` -/
+example : fmtNumber true false ⟨none, false, ⟨false, 1, 1⟩, [53]⟩ = [49, 53] := by decide +kernel
+
+/-- the end-to-end statement for a parsed text: write, read again -/
+theorem number_roundtrip (om : Bool) (t : Text) (p : Parsed) (h : parseNum t = some p)
+    (hdim : p.isFloat = true → printsInt p = true → dotDigit p.dim = false) :
+    ∃ v p', parseNum (fmtNumber true om p) = some p' ∧ p'.dim = unitOut p ∧
+      decimalValue (fmtParts true om p).2.1 = some v ∧ 0 < v.den ∧
+      p'.value = (if printsInt p then v
+                  else ⟨v.neg, (roundToDouble v.num v.den).1, (roundToDouble v.num v.den).2⟩) ∧
+      (v.num ≠ 0 → v.neg = p.value.neg) ∧ (v.num = 0 → v.neg = false) ∧
+      2 * 1000000 * (v.num * p.value.den - p.value.num * v.den) ≤ p.value.den * v.den ∧
+      2 * 1000000 * (p.value.num * v.den - v.num * p.value.den) ≤ p.value.den * v.den := by
+  have hwf := parseNum_wf t p h
+  have hd : printsInt p = true → UnitText p.dim := by
+    intro hi
+    refine ⟨hwf.dimHead, ?_⟩
+    cases hf : p.isFloat
+    · exact hwf.dimInt hf
+    · exact hdim hf hi
+  obtain ⟨v, p', hv, _, hp, h1, _, _, h4⟩ := fmt_reparse_text om p hwf hd
+  obtain ⟨v', hv', hd', _, hn, hc1, hc2⟩ := fmt_reparse_close om p hwf
+  obtain ⟨v'', hv'', _, _, _, hz, _⟩ := fmt_reparse_all om p hwf
+  rw [hv] at hv' hv''
+  cases hv'; cases hv''
+  exact ⟨v, p', hp, h1, hv, hd', h4, hn, hz, hc1, hc2⟩
+
+/-! non-vacuity: `+1.0px` satisfies the hypotheses with a non-empty unit in the integer branch;
+`-0.0000004px` is the `-0` case (written `0`); `-.5em` with omitLeadingZero -/
+example : ∃ p, parseNum [43, 49, 46, 48, 112, 120] = some p ∧ WF p ∧ printsInt p = true ∧
+    (printsInt p = true → UnitText p.dim) ∧ fmtNumber true true p = [43, 49, 112, 120] := by
+  cases h : parseNum [43, 49, 46, 48, 112, 120] with
+  | none => exact absurd h (by decide +kernel)
+  | some p =>
+    have hd : (parseNum [43, 49, 46, 48, 112, 120]).map (fun p => (p.dim, printsInt p, fmtNumber true true p))
+        = some ([112, 120], true, [43, 49, 112, 120]) := by decide +kernel
+    rw [h] at hd
+    simp only [Option.map_some, Option.some.injEq] at hd
+    have h1 : p.dim = [112, 120] := congrArg Prod.fst hd
+    have h2 : printsInt p = true := congrArg (fun x => x.2.1) hd
+    have h3 : fmtNumber true true p = [43, 49, 112, 120] := congrArg (fun x => x.2.2) hd
+    refine ⟨p, rfl, parseNum_wf _ _ h, h2, fun _ => ?_, h3⟩
+    rw [h1]
+    exact ⟨by intro c hc; simp at hc; subst hc; decide, rfl⟩
+example : (parseNum [45, 48, 46, 48, 48, 48, 48, 48, 48, 52, 112, 120]).map (fmtNumber true true) = some [48] := by
+  decide +kernel
+example : (parseNum [45, 46, 53, 101, 109]).map (fun p => (fmtNumber true true p, fmtNumber true false p))
+    = some ([45, 46, 53, 101, 109], [45, 48, 46, 53, 101, 109]) := by decide +kernel
 
 /-! ### colours -/
 
